@@ -70,7 +70,7 @@ func (s *vfTStore) Load(ctx context.Context, m nodeenrollment.MessageWithId) err
 	return nodeenrollment.ErrNotFound
 }
 func (s *vfTStore) Remove(ctx context.Context, m nodeenrollment.MessageWithId) error { return nil }
-func (s *vfTStore) List(ctx context.Context, m proto.Message) ([]string, error)     { return nil, nil }
+func (s *vfTStore) List(ctx context.Context, m proto.Message) ([]string, error)      { return nil, nil }
 func (s *vfTStore) put(m nodeenrollment.MessageWithId) {
 	if err := s.Store(context.Background(), m); err != nil {
 		panic(err)
